@@ -216,7 +216,7 @@ func runC19(s *sut.SUT, cs c19Case) (rule, detail string, nontrivial bool) {
 		return "harness", err.Error(), false
 	}
 	sub := &pubsubpb.Subscription{Name: c19S, Topic: c19T,
-		RetryPolicy: &pubsubpb.RetryPolicy{MinimumBackoff: durationpb.New(100 * time.Millisecond), MaximumBackoff: durationpb.New(200 * time.Millisecond)}}
+		RetryPolicy: &pubsubpb.RetryPolicy{MinimumBackoff: durationpb.New(400 * time.Millisecond), MaximumBackoff: durationpb.New(500 * time.Millisecond)}}
 	if cs.Manager {
 		sub.PushConfig = &pubsubpb.PushConfig{PushEndpoint: c19URL}
 	}
@@ -280,7 +280,7 @@ func runC19(s *sut.SUT, cs c19Case) (rule, detail string, nontrivial bool) {
 			}
 		}
 	}
-	deadline := time.Now().Add(time.Duration(6+2*slow)*time.Second + time.Duration(total)*400*time.Millisecond)
+	deadline := time.Now().Add(time.Duration(6+2*slow)*time.Second + time.Duration(total)*900*time.Millisecond)
 	for time.Now().Before(deadline) {
 		ep.mu.Lock()
 		n, viol := len(ep.done), ep.violation
@@ -291,7 +291,7 @@ func runC19(s *sut.SUT, cs c19Case) (rule, detail string, nontrivial bool) {
 		time.Sleep(5 * time.Millisecond)
 	}
 	// a success must be final: watch for two more backoff periods
-	time.Sleep(450 * time.Millisecond)
+	time.Sleep(1100 * time.Millisecond)
 	ep.mu.Lock()
 	defer ep.mu.Unlock()
 	if ep.violation != "" {
@@ -308,7 +308,7 @@ func runC19(s *sut.SUT, cs c19Case) (rule, detail string, nontrivial bool) {
 			if last == nil {
 				return "not-pushed", fmt.Sprintf("message #%d (%s) of a push subscription was never POSTed to the endpoint (%d pushes seen in total)", i, m.Data, len(ep.seen)), false
 			}
-			return "not-retried", fmt.Sprintf("message #%d: push %d was answered with status %d (0 = transport error) %v ago and it has not been pushed again (retry policy 100-200 ms)", i, last.Attempt, last.Reply.Status, time.Since(last.At).Round(time.Millisecond)), false
+			return "not-retried", fmt.Sprintf("message #%d: push %d was answered with status %d (0 = transport error) %v ago and it has not been pushed again (retry policy 400-500 ms)", i, last.Attempt, last.Reply.Status, time.Since(last.At).Round(time.Millisecond)), false
 		}
 	}
 	grew := false
@@ -430,7 +430,7 @@ func TestC19(t *testing.T) {
 			stats.C.Note("script skipped: %s", detail)
 			return
 		}
-		if rule == "not-retried" || rule == "not-pushed" || rule == "not-acked" {
+		if rule == "not-retried" || rule == "not-pushed" || rule == "not-acked" || rule == "pushed-after-success" {
 			misses := 1
 			for k := 0; k < 2; k++ {
 				if r2, _, _ := runC19(s, cs); r2 == rule {
@@ -467,12 +467,12 @@ func init() {
 			if rule, detail, _ := runC19(s, cs); rule != "" && rule != "harness" {
 				n++
 				lr, ld = rule, detail
-				if rule == "envelope" || rule == "window" || rule == "pushed-after-success" {
+				if rule == "envelope" || rule == "window" {
 					break
 				}
 			}
 		}
-		if n == 3 || (n > 0 && (lr == "envelope" || lr == "window" || lr == "pushed-after-success")) {
+		if n == 3 || (n > 0 && (lr == "envelope" || lr == "window")) {
 			violate(t, prop, failure{Rule: lr, Detail: ld, Sig: map[string]any{"rule": lr}})
 		}
 	}
